@@ -63,8 +63,16 @@ def gen(rs: int, tier: str, index: int) -> dict:
                     "us": [r.choice([0, 1, 50, 500, 5000]), 0]}
             t["deps"] = nodes + [leaf, repl]
             t["overrides"] = [[nodes[oi]["id"], repl["id"]]]
+    # half of the runs: every task has a parameter annotated Union[bool, int, float, str, None] and the messages carry scalars
+    # that compare (and hash) equal across messages but differ in type: True / 1 / 1.0, False / 0 / 0.0
+    typed_scalars = r.random() < 0.5
+    if typed_scalars:
+        for t in s["tasks"]:
+            t["uparam"] = True
     for m in s["messages"]:
         if m.get("kind", "valid") == "valid":
+            if typed_scalars:
+                m["kwargs"] = {"u": r.choice([True, 1, 1.0, False, 0, 0.0, True, 1, 1.0, "1", 2, 2.0])}
             m["labels"] = {"own": ["str", f"L{m['k']}"], "n": ["int", str(m["k"] * 7)]}
             if r.random() < 0.35:
                 m["labels"] = {}          # a message that carries no labels at all
@@ -82,6 +90,12 @@ def gen(rs: int, tier: str, index: int) -> dict:
                 m.pop("pool_delay_us", None)
                 m.pop("timeout", None) if r.random() < 0.7 else None
     return s
+
+
+def typed(kw: dict) -> str:
+    """Type-sensitive rendering: True, 1 and 1.0 compare equal in Python but are different arguments."""
+    import json
+    return json.dumps(kw, sort_keys=True, default=repr)
 
 
 def walk(val: Any, acc: List[Any]) -> None:
@@ -146,6 +160,10 @@ def oracle(script: dict, run: Any) -> List[Violation]:
             check("task function", e[5].get("seen"))
             if e[5]["args"] != want_args:
                 out.append(Violation("C06/foreign-arguments", f"delivery {d}: function received args {e[5]['args']}, own message has {want_args}"))
+            want_kw = dict(m.get("kwargs") or {})
+            if typed(e[5].get("kwargs") or {}) != typed(want_kw):
+                out.append(Violation("C06/foreign-arguments", f"delivery {d}: function received keyword arguments {typed(e[5].get('kwargs') or {})}, "
+                                     f"its own message carries {typed(want_kw)} (a value of another message's type)"))
             acc: List[Any] = []
             for v in (e[5].get("deps") or {}).values():
                 walk(v, acc)
@@ -164,6 +182,7 @@ def probes(script: dict, run: Any) -> Dict[str, int]:
     h = Hist(run)
     res = {"overlap_inside_dependency_resolution": 0, "uncached_dependency_resolved": 0, "max_overlap": 0, "label_less_message": int(any(m.get("kind", "valid") == "valid" and not m.get("labels") for m in script["messages"])),
            "requeued": int(run.fault_counts.get("requeue", 0) > 0),
+           "equal_scalars_of_different_type_across_messages": int(len({(type(m["kwargs"]["u"]).__name__) for m in script["messages"] if (m.get("kwargs") or {}).get("u") in (0, 1)}) >= 2),
            "dependency_override_resolved": int(any(e[5]["dep"].startswith("r") for e in h.kind("dep_open")))}
     live = set()
     resolving = set()
